@@ -103,7 +103,11 @@ PROPS = {
                 "assumed in the whole-volume model (proved / tied at the replica level, not here): an RW replica counts each write it applies and a WO replica does not (C10), a promoted replica holds what its source holds (C07) and takes its counter (c10_promotion); the addition (attach, then SetRebuilding(true)) and the promotion (VerifyRebuildReplica, then SetRebuilding(false)) are two steps each, in the order T1 syncAddOrder / syncVerifyOrder pin"]},
     "C13": {"lean": CTLMOD + ["JivaVerif.Properties.C13Cluster"], "prefixes": ["c13_", "ctl_reachable_inv", "invS_step", "invS_run"],
             "runs": [ctl("snapshots", 480, 30, 9000, 40, 16), dict(rep("rebuild", 160, 30, 1500, 40, 38), **{"thorough": {"n": 1500, "len": 40, "timeout": 6000}}),
-                     {"engine": "clusterdiff", "profile": "healthy", "salt": 75, "quick": {"n": 160, "len": 45, "timeout": 900}, "thorough": {"n": 3000, "len": 50, "timeout": 3000}}],
+                     {"engine": "clusterdiff", "profile": "healthy", "salt": 75, "quick": {"n": 160, "len": 45, "timeout": 900}, "thorough": {"n": 3000, "len": 50, "timeout": 3000}},
+                     # 'taken on all replicas': what a replica ANSWERS to a snapshot request must be true — a snapshot one of
+                     # whose file-system calls failed is either there or reported as failed (the replica level of C13)
+                     {"engine": "crashdiff", "profile": "snap", "salt": 43, "workers": 16, "split": False,
+                      "quick": {"n": 2, "len": 0, "timeout": 600}, "thorough": {"n": 8, "len": 0, "timeout": 3000}}],
             "modelled": CTL + [
                 "volume level ('identical content on every replica'): c13_snapshot_identical_on_all_replicas over the whole-volume model Model/Cluster.lean — for ANY history every volume snapshot a replica directory holds is the volume's content at the moment it was taken (ghost `taken`), whether the directory was attached then or got the snapshot through a rebuild; tie: clusterdiff takes user-created volume snapshots through the real Controller.Snapshot and compares, per directory, which snapshots it holds and the writes frozen in each","data half: in the rebuild profile, once all three real replicas are RW, volume snapshots are taken through the real controller between foreground writes and the chains and volume images of the three replicas are compared with each other (request cmp) and with the model"]},
     "C18": {"lean": CTLMOD, "prefixes": ["c18_", "c07_single_wo", "ctl_reachable_inv", "run_rf", "step_rf"],
